@@ -82,8 +82,8 @@ pub fn runs_for(check: &str, tier: Tier) -> u64 {
         "C08" => if q { 96 } else { 3_000 },
         "C03" => if q { 100_000 } else { 5_000_000 },
         "C04" => if q { 40_000 } else { 2_000_000 },
-        "C09" => if q { 12_000 } else { 600_000 },
-        "C05" => if q { 1_600 } else { 80_000 },
+        "C09" => if q { 8_000 } else { 400_000 },
+        "C05" => if q { 1_000 } else { 60_000 },
         "C14" => if q { 60_000 } else { 3_000_000 },
         "C17" => if q { 60_000 } else { 3_000_000 },
         "C18" => if q { 60_000 } else { 3_000_000 },
@@ -247,14 +247,14 @@ pub fn exec_supply(check: &str, t: &SupplyTrace, scratch: &Scratch, rec: &mut Ru
 fn faults_for(check: &str) -> (&'static [F], &'static [F]) {
     // (primary, secondary)
     const ALL_COUNT: &[F] = &[
-        F::Drop, F::Outsider, F::WrongStep, F::OwnerAsFunc, F::SigSwap, F::SigFlip, F::LinkEdit, F::Relabel, F::Misfile, F::Unmet, F::Unlisted, F::Misattributed,
+        F::Drop, F::Outsider, F::WrongStep, F::OwnerAsFunc, F::SigSwap, F::SigFlip, F::LinkEdit, F::Relabel, F::Misfile, F::Unmet, F::Unlisted, F::Misattributed, F::ExtraStranger, F::UnknownSchemeFunc,
     ];
     const LAYOUT: &[F] = &[
-        F::LNoSig, F::LForged, F::LCorrupt, F::LEdit, F::LEdit, F::LSigDup, F::CallerEmpty, F::CallerSuperset, F::CallerDisjoint, F::CallerAlias, F::CallerJsonAlias,
+        F::LNoSig, F::LForged, F::LCorrupt, F::LEdit, F::LEdit, F::LSigDup, F::CallerEmpty, F::CallerSuperset, F::CallerDisjoint, F::CallerAlias, F::CallerJsonAlias, F::UnknownSchemeOwner,
     ];
     const BYTES: &[F] = &[F::ByteFlip, F::ByteTrunc, F::ByteOverwrite, F::DupFile, F::SigDup, F::SigShuf];
-    const DELEG: &[F] = &[F::SubWrongSigner, F::SubExpired, F::SubInner, F::SubInner, F::WrongDir, F::ATamper, F::SharedSub];
-    const DISSENT: &[F] = &[F::Dissent];
+    const DELEG: &[F] = &[F::SubWrongSigner, F::SubExpired, F::SubInner, F::SubInner, F::WrongDir, F::ATamper, F::SharedSub, F::WrongStep, F::ExtraStranger];
+    const DISSENT: &[F] = &[F::Dissent, F::Dissent, F::Dissent, F::SharedSub];
     const C14F: &[F] = &[F::ByteFlip, F::ByteTrunc, F::ByteOverwrite, F::Garbage, F::IsDir, F::Dangling, F::DupFile, F::OddFileName, F::LEdit, F::LinkEdit];
     match check {
         "C01" => (LAYOUT, BYTES),
@@ -283,7 +283,7 @@ fn opts_for(check: &str, tier: Tier, r: &mut Rng) -> GenOpts {
             o.delegation_pct = 8;
         }
         "C07" => {
-            o.delegation_pct = 8;
+            o.delegation_pct = 20;
         }
         _ => {}
     }
@@ -352,7 +352,7 @@ pub fn run_c13(tier: Tier, seed: u64, index: u64, scratch: &Scratch, rec: &mut R
     let ed_only = t.keys.iter().all(|k| k.kind.is_ed());
     let n_steps = t.root.layout.steps.len();
     let si = fr.idx(n_steps);
-    let shape = fr.below(4);
+    let shape = fr.below(6);
     let sname = t.root.layout.steps[si].name.clone();
     let template = t.root.files.iter().find(|f| f.name.starts_with(&format!("{}.", sname)) && matches!(f.body, crate::world::Body::Link(_))).cloned();
     if let Some(tpl) = template {
@@ -396,8 +396,55 @@ pub fn run_c13(tier: Tier, seed: u64, index: u64, scratch: &Scratch, rec: &mut R
                 t.root.files.push(nf);
             }
             t.labels.push("SURPLUS-DIFFERING".into());
-        } else {
+        } else if shape == 3 {
             t.labels.push("PLAIN".into());
+        } else if shape == 4 {
+            // artifacts with two digests each; the receiving step's materials agree with the producing
+            // step's products in one algorithm and disagree in the other
+            if n_steps >= 2 {
+                let si = 1 + fr.idx(n_steps - 1);
+                let prev = t.root.layout.steps[si - 1].name.clone();
+                let cur = t.root.layout.steps[si].name.clone();
+                for f in t.root.files.iter_mut() {
+                    if let crate::world::Body::Link(l) = &mut f.body {
+                        let is_prev = f.name.starts_with(&format!("{}.", prev));
+                        let is_cur = f.name.starts_with(&format!("{}.", cur));
+                        if is_prev {
+                            for (p, d) in l.products.iter_mut() {
+                                d.insert("sha512".into(), gen::sha512_hex(p.as_bytes()));
+                            }
+                        }
+                        if is_cur {
+                            for (p, d) in l.materials.iter_mut() {
+                                d.insert("sha512".into(), gen::sha512_hex(format!("other-{p}").as_bytes()));
+                            }
+                        }
+                    }
+                }
+                t.labels.push("PARTIAL-DIGEST".into());
+            }
+        } else {
+            // one key under two key ids (raw ed25519 and its PKCS#8 import), both authorized for one
+            // step, each with its own, different link
+            let signer = tpl.doc.signers.first().copied();
+            if let Some(k) = signer {
+                if t.keys[k].kind == crate::keys::KeyKind::Ed {
+                    let alias = crate::keys::KeySpec { kind: crate::keys::KeyKind::EdPk8, seed: t.keys[k].seed };
+                    t.keys.push(alias);
+                    let a = t.keys.len() - 1;
+                    t.root.layout.key_table.push(a);
+                    t.root.layout.steps[si].pubkeys.push(a);
+                    t.root.layout.steps[si].threshold = fr.below(2) as u32;
+                    let mut nf = tpl.clone();
+                    nf.name = gen::link_name(&sname, &t.keys, a);
+                    nf.doc.signers = vec![a];
+                    if let crate::world::Body::Link(l) = &mut nf.body {
+                        l.products.insert("alias-variant".into(), gen::digest_of(5_100_000, false));
+                    }
+                    t.root.files.push(nf);
+                    t.labels.push("ALIASED-KEY-IDS".into());
+                }
+            }
         }
     }
     // a second arrival order
